@@ -27,7 +27,7 @@ CHECKS = {
    text="Seeded schedule exploration of the real tfel-check driver code on generated sets of .check files, -j 1..16: exit status must equal the plan-derived verdict and tfel-check.log must contain each check's block exactly once and uninterleaved.",
    note="Trusted: simulated kernel as for C30; child commands are simulated fates, not real programs.",
    design="§3 C52"),
- "C46": dict(ready=False, level="exploration", engine="procsim",
+ "C46": dict(ready=True, level="exploration", engine="procsim",
    technique="deterministic simulation of processes: real forked processes running MFrontLock.cxx from the tree, every sem_* call and exit forwarded to a seeded simulator that owns the named semaphore and the schedule; holder-count invariant",
    text="Seeded exploration of histories of 2..8 mfront-like runs (sequential then concurrent, with kills at arbitrary points): at every step the number of processes inside a lock-protected section must be <= the initial value of the semaphore (1).",
    note="Trusted: the simulated named semaphore (POSIX semantics, persistent across process exits) and the forwarding shim.",
